@@ -3066,10 +3066,14 @@ func (h *ResponseHeader) parseHeaders(buf []byte) (int, error) {
 				continue
 			}
 			if caseInsensitiveCompare(s.key, strConnection) {
+				// Connection is a comma separated list of case-insensitive
+				// options which may span several field lines (RFC 9110 7.6.1).
 				if bytes.Equal(s.value, strClose) {
 					h.connectionClose = true
 				} else {
-					h.connectionClose = false
+					if hasHeaderValue(s.value, strClose) {
+						h.connectionClose = true
+					}
 					h.h = appendArgBytes(h.h, s.key, s.value, argsHasValue)
 				}
 				continue
@@ -3256,10 +3260,14 @@ func (h *RequestHeader) parseHeaders(buf []byte, blockEnd int) (int, error) {
 				continue
 			}
 			if caseInsensitiveCompare(s.key, strConnection) {
+				// Connection is a comma separated list of case-insensitive
+				// options which may span several field lines (RFC 9110 7.6.1).
 				if bytes.Equal(s.value, strClose) {
 					h.connectionClose = true
 				} else {
-					h.connectionClose = false
+					if hasHeaderValue(s.value, strClose) {
+						h.connectionClose = true
+					}
 					h.h = appendArgBytes(h.h, s.key, s.value, argsHasValue)
 				}
 				continue
